@@ -40,6 +40,15 @@ add('redefined-enum-tag', 'decl', 'enum r7 { r7a }; enum r7 { r7b };')
 add('tag-kind-mismatch', 'decl', 'struct r8 { int a; }; union r8 x8;')
 add('object-redefined', 'decl', 'int r9 = 1; int r9 = 2;', blockok=False)
 add('function-redefined', 'decl', 'int r10(void) { return 1; } int r10(void) { return 2; }', blockok=False)
+# a second definition with every combination of function specifiers and storage classes on the first and the second one
+for _i, _a in enumerate(('', 'inline', 'static', 'static inline', 'extern', 'extern inline')):
+    for _j, _b in enumerate(('', 'inline', 'static', 'static inline', 'extern', 'extern inline')):
+        if ('static' in _a) != ('static' in _b) and _a and _b and 'static' in _b:
+            continue        # static after non-static is a linkage error of its own (covered elsewhere)
+        if (_a, _b) == ('', ''):
+            continue
+        add('function-redefined/%s-then-%s' % (_a.replace(' ', '-') or 'plain', _b.replace(' ', '-') or 'plain'), 'decl',
+            '%s int r3%d%d(void) { return 1; } %s int r3%d%d(void) { return 2; }' % (_a, _i, _j, _b, _i, _j), blockok=False)
 add('block-object-redeclared', 'stmt', 'int b1; int b1;')
 add('block-object-redeclared-different-type', 'stmt', 'int b2; long b2;')
 add('parameter-redeclared-in-body', 'decl', 'void r11(int p) { int p; }', blockok=False)
